@@ -54,7 +54,7 @@ CHECKS = {
             'exactly influx minus the two corner outflows (no other term); frozen/nomut populations get no influx. For every non-empty proper subset '
             'S the S-marginal of the joint run equals integrating the S-marginal alone (m=0, gamma=0). Every frozen-with-migration placement is '
             'rejected and every other accepted.',
-            'One grid for all axes (driver API); the delj switch is off here (C02 covers it); isolated-marginal clause asserted where all S '
+            'One grid for all axes (driver API); the full lattice runs with the delj switch off (a reduced lattice with it on, see below); isolated-marginal clause asserted where all S '
             'frequencies are interior; quick tier covers a third of the parameter product per frozen pattern on an asymmetric grid (cap reported). Added after the seeded waves: every frozen pattern again with the delj switch on, with Fortran-ordered / strided densities and a strided grid, with sizes that change during the integration (replayed with the per-step rule), and with each migration rate in turn limiting the step.',
             'DESIGN.md §3 C04'),
     'C05': ('model_checking',
